@@ -5,10 +5,14 @@ Model of `VAMTransmissionManagement.location_service_callback` / `send_next_vam`
 Report driven.  `its` = ITS timestamp [ms] of the report's `time`; positions are `int(lat*1e7)`, `int(lon*1e7)`;
 speed in mm/s, heading in 0.01 degree; `wall` = `time.time()` in integer ms at the moment of sending (the code
 times the low-frequency container on the wall clock); `gate` = `clustering_manager.should_transmit_vam()`
-(true when there is no clustering manager).  Sends are assumed to succeed.
+(true when there is no clustering manager), `clusterOp` = the clustering manager hands out a
+`vruClusterOperationContainer` for this VAM (the code then always adds the low-frequency container), `fail` = the
+transmission attempt fails (LDM feed, coder or BTP request raise: the exception leaves the callback, no VAM).
 
 `gated` selects the variant: `true` = triggers 2-4 are evaluated only when T_GenVamMin has elapsed
 (repaired), `false` = the code as it is (known finding C10-KF1: pinned by the repository's unit tests).
+`lfAfterSend` selects: `true` = `last_lf_vam_time` is recorded after the BTP request succeeded (repaired,
+fixes/C10-vam-lf-time-after-send), `false` = recorded when the container is attached, before the attempt.
 -/
 import Generated.FacConstants
 
@@ -25,6 +29,7 @@ structure Tpv where
 
 structure State where
   gated : Bool := false
+  lfAfterSend : Bool := true
   tGenVam : Nat := T_GENVAMMIN
   lastGdt : Option Nat := none
   lastLat7 : Int := 0
@@ -48,6 +53,8 @@ structure Op where
   r : Tpv
   wall : Nat
   gate : Bool
+  clusterOp : Bool := false
+  fail : Bool := false
   deriving Repr, DecidableEq, Inhabited
 
 def absDiff (a b : Nat) : Nat := if a ≥ b then a - b else b - a
@@ -108,7 +115,10 @@ def step (s : State) (op : Op) : State × Option VamOut :=
   else match trigger s op.r with
     | none => (s, none)
     | some k =>
-      let lf := lfDue s op.wall
+      let lf := lfDue s op.wall || op.clusterOp
+      if op.fail then
+        ((if s.lfAfterSend then s else { s with lastLf := if lf then some op.wall else s.lastLf }), none)
+      else
       ({ s with
          lastGdt := some (gdtOf op.r),
          lastLat7 := (match op.r.pos with | some p => p.1 | none => 900000001),
@@ -117,6 +127,7 @@ def step (s : State) (op : Op) : State × Option VamOut :=
          lastLf := if lf then some op.wall else s.lastLf, isFirst := false },
        some { its := op.r.its, wall := op.wall, gdt := gdtOf op.r, lf := lf, trig := k, rid := op.r.rid })
 
-def init (gated : Bool) (tGenVam : Nat := T_GENVAMMIN) : State := { gated := gated, tGenVam := tGenVam }
+def init (gated : Bool) (tGenVam : Nat := T_GENVAMMIN) (lfAfterSend : Bool := true) : State :=
+  { gated := gated, tGenVam := tGenVam, lfAfterSend := lfAfterSend }
 
 end FlexModel.Fac.Vam
